@@ -307,6 +307,21 @@ func genC18(seed int64, tier string, out *Writer) {
 				out.Put(J{"k": "seq", "entry": name, "input": B(variant), "repeat": 24})
 			}
 		}
+		// field by field: every field of the seed document emptied, removed, and given a value of another type - one vector
+		// per field and replacement, so that every branch of the typed decoder meets an empty and an ill-typed value
+		if strings.Contains(seedsC18[name][0], ": ") || strings.Contains(seedsC18[name][0], ":\n") {
+			lines := strings.SplitAfter(seedsC18[name][0], "\n")
+			for i, ln := range lines {
+				c := strings.Index(ln, ":")
+				if c <= 0 || ln[0] == ' ' || ln[0] == '\t' {
+					continue
+				}
+				for _, val := range []string{"", " ", " x", " -1", " 99999999999999999999", " yes", " 0x10", " 1 2", " ,", " \t"} {
+					out.Put(J{"k": "seq", "entry": name, "input": B(strings.Join(lines[:i], "") + ln[:c+1] + val + "\n" + strings.Join(lines[i+1:], ""))})
+				}
+				out.Put(J{"k": "seq", "entry": name, "input": B(strings.Join(lines[:i], "") + strings.Join(lines[i+1:], ""))})
+			}
+		}
 		for i := 0; i < n; i++ {
 			sd := seedsC18[name][r.Intn(len(seedsC18[name]))]
 			var in string
